@@ -953,27 +953,42 @@ package genetics
 //@   mode nosafety
 //@   ufarith
 //@   assume_pre countOffspring
+//@   requires [orgsNonNil] forall i :: 0 <= i && i < len(p.Organisms) ==> p.Organisms[i] != nil
 //@   requires p != nil && len(p.Organisms) > 0 && len(p.Species) > 0 && distinctRefs(p.Species) && (forall i :: 0 <= i && i < len(p.Species) ==> p.Species[i] != nil)
 //@   ensures_local [madeUp] totalExpected < totalOrganisms && finalExpected >= totalOrganisms ==> sumField(old(p.Species), heapOf(Species.ExpectedOffspring)) >= totalOrganisms
 //@   ensures_local [allToBest] totalExpected < totalOrganisms && finalExpected < totalOrganisms ==> bestSpecies != nil && bestSpecies.ExpectedOffspring == totalOrganisms && (forall i :: 0 <= i && i < old(len(p.Species)) && old(p.Species[i]) != bestSpecies ==> old(p.Species[i]).ExpectedOffspring == 0)
+//@   ensures_local [mean] overallAverage == sumFieldR(p.Organisms, heapOf(Organism.Fitness)) / real(len(p.Organisms))
+//@   ensures_local [normalised] (overallAverage != 0.0 ==> (forall i :: 0 <= i && i < len(p.Organisms) ==> p.Organisms[i].ExpectedOffspring == p.Organisms[i].Fitness / overallAverage))
 //@   ensures [noZero] forall i :: 0 <= i && i < len(p.Species) ==> p.Species[i] != nil && p.Species[i].ExpectedOffspring > 0
 //@   loop 1:
-//@     invariant -1 <= #idx
+//@     invariant -1 <= #idx && #idx < len(p.Organisms) && sameSlice(p.Organisms, old(p.Organisms)) && unchanged(p.Organisms)
+//@     invariant [partial] total == sumFieldR(p.Organisms[0:#idx+1], heapOf(Organism.Fitness))
 //@   loop 2:
-//@     invariant -1 <= #idx
+//@     invariant -1 <= #idx && #idx < len(p.Organisms) && sameSlice(p.Organisms, old(p.Organisms)) && unchanged(p.Organisms) && overallAverage != 0.0
+//@     invariant [mean] overallAverage == sumFieldR(p.Organisms, heapOf(Organism.Fitness)) / real(len(p.Organisms))
+//@     invariant [fitnessKept] forall o *Organism :: wasAllocated(o) ==> o.Fitness == old(o.Fitness)
+//@     invariant [done] forall i :: 0 <= i && i <= #idx ==> p.Organisms[i].ExpectedOffspring == p.Organisms[i].Fitness / overallAverage
 //@   loop 3:
+//@     invariant [mean] sameSlice(p.Organisms, old(p.Organisms)) && unchanged(p.Organisms) && overallAverage == sumFieldR(p.Organisms, heapOf(Organism.Fitness)) / real(len(p.Organisms))
+//@     invariant [normalised] (overallAverage != 0.0 ==> (forall i :: 0 <= i && i < len(p.Organisms) ==> p.Organisms[i].ExpectedOffspring == p.Organisms[i].Fitness / overallAverage))
 //@     invariant -1 <= #idx && #idx < len(p.Species) && sameSlice(p.Species, old(p.Species)) && unchanged(p.Species) && totalOrganisms == len(p.Organisms) && 0.0 <= skim && skim < 1.0
 //@     invariant [nonneg] forall i :: 0 <= i && i <= #idx ==> p.Species[i].ExpectedOffspring >= 0
 //@   loop 4:
+//@     invariant [mean] sameSlice(p.Organisms, old(p.Organisms)) && unchanged(p.Organisms) && overallAverage == sumFieldR(p.Organisms, heapOf(Organism.Fitness)) / real(len(p.Organisms))
+//@     invariant [normalised] (overallAverage != 0.0 ==> (forall i :: 0 <= i && i < len(p.Organisms) ==> p.Organisms[i].ExpectedOffspring == p.Organisms[i].Fitness / overallAverage))
 //@     invariant -1 <= #idx && #idx < len(p.Species) && sameSlice(p.Species, old(p.Species)) && unchanged(p.Species) && totalOrganisms == len(p.Organisms) && maxExpected >= 0
 //@     invariant [sum] finalExpected == sumField(p.Species[0:#idx+1], heapOf(Species.ExpectedOffspring))
 //@     invariant [nonneg] forall i :: 0 <= i && i < len(p.Species) ==> p.Species[i].ExpectedOffspring >= 0
 //@     invariant [bestNonNil] (#idx >= 0 ==> bestSpecies != nil) && (bestSpecies == nil ==> maxExpected == 0)
 //@     invariant [bestMember] bestSpecies != nil ==> (exists j :: 0 <= j && j <= #idx && bestSpecies == p.Species[j])
 //@   loop 5:
+//@     invariant [mean] sameSlice(p.Organisms, old(p.Organisms)) && unchanged(p.Organisms) && overallAverage == sumFieldR(p.Organisms, heapOf(Organism.Fitness)) / real(len(p.Organisms))
+//@     invariant [normalised] (overallAverage != 0.0 ==> (forall i :: 0 <= i && i < len(p.Organisms) ==> p.Organisms[i].ExpectedOffspring == p.Organisms[i].Fitness / overallAverage))
 //@     invariant -1 <= #idx && #idx < len(p.Species) && sameSlice(p.Species, old(p.Species)) && unchanged(p.Species) && totalOrganisms == len(p.Organisms) && bestSpecies != nil && (exists j :: 0 <= j && j < len(p.Species) && bestSpecies == p.Species[j])
 //@     invariant [zeroed] forall i :: 0 <= i && i <= #idx ==> p.Species[i].ExpectedOffspring == 0
 //@   loop 6:
+//@     invariant [mean] sameSlice(p.Organisms, old(p.Organisms)) && unchanged(p.Organisms) && overallAverage == sumFieldR(p.Organisms, heapOf(Organism.Fitness)) / real(len(p.Organisms))
+//@     invariant [normalised] (overallAverage != 0.0 ==> (forall i :: 0 <= i && i < len(p.Organisms) ==> p.Organisms[i].ExpectedOffspring == p.Organisms[i].Fitness / overallAverage))
 //@     invariant -1 <= #idx && sameSlice(p.Species, old(p.Species)) && unchanged(p.Species) && fresh(speciesToKeep)
 //@     invariant [total] totalOrganisms == len(p.Organisms) && (totalExpected < totalOrganisms && finalExpected >= totalOrganisms ==> sumField(p.Species, heapOf(Species.ExpectedOffspring)) >= totalOrganisms) && (totalExpected < totalOrganisms && finalExpected < totalOrganisms ==> bestSpecies != nil && bestSpecies.ExpectedOffspring == totalOrganisms && (forall i :: 0 <= i && i < len(p.Species) && p.Species[i] != bestSpecies ==> p.Species[i].ExpectedOffspring == 0))
 //@     invariant [kept] forall i :: 0 <= i && i < len(speciesToKeep) ==> speciesToKeep[i] != nil && speciesToKeep[i].ExpectedOffspring > 0
